@@ -133,14 +133,7 @@ theorem pyInt10_natToDec_any (n : Nat) : pyInt10 (natToDec n) = some (n : Int) :
     · rename_i h; cases h; omega
     · rw [hp]; simp [parseDigits]
 
-theorem strSpaceToAscii_id (s : Bytes) (h : ∀ b ∈ s, 32 ≤ b) : strSpaceToAscii s = s := by
-  unfold strSpaceToAscii
-  induction s with
-  | nil => rfl
-  | cons x xs ih =>
-    have hx : 32 ≤ x := h x (by simp)
-    have hn : ¬ (0x1c ≤ x ∧ x ≤ 0x1f) := by omega
-    rw [List.map_cons, if_neg hn, ih fun b hb => h b (by simp [hb])]
+theorem strSpaceToAscii_id (s : Bytes) (_h : ∀ b ∈ s, 32 ≤ b) : strSpaceToAscii s = s := rfl
 
 theorem any_ge128_false (s : Bytes) (h : ∀ b ∈ s, b < 128) : s.any (· ≥ 128) = false := by
   rw [List.any_eq_false]
